@@ -618,6 +618,22 @@ class Interp:
             return (False, None)
         return PyIter([], producer_)
 
+    def accessor(self, cname, attr, kind):
+        """the @property getter (kind 'get') / the @<attr>.setter (kind 'set') of `attr`, looked up through the classes of the object"""
+        h = self.h
+        if cname not in h.module.classes:
+            return None
+        want = 'property' if kind == 'get' else attr + '.setter'
+        for c_ in h.module.mro(cname):
+            home_ = h.module._home(c_) if hasattr(h.module, '_home') else h.module
+            if home_ is None:
+                continue
+            for q_, f_ in home_.funcs.items():
+                if (q_ == '%s.%s' % (c_, attr) or q_.startswith('%s.%s#' % (c_, attr))) and isinstance(f_.node, ast.FunctionDef) \
+                        and any(norm(d_) == want for d_ in f_.node.decorator_list):
+                    return f_
+        return None
+
     def is_contextmanager(self, fnode):
         """the called function is a generator function of the module decorated with contextlib.contextmanager"""
         h = self.h
@@ -889,6 +905,20 @@ class Interp:
                         for a_ in st_.names:
                             if (a_.asname or a_.name) == e.id and (st_.module, a_.name) in _STDLIB_CONSTANTS:
                                 return _STDLIB_CONSTANTS[(st_.module, a_.name)]          # a constant of the standard library
+            # NAME = factory(...) at module level, the factory a function of the analysed modules that returns a nested function (a stage of
+            # a pipeline made at import time): the function it hands out, made once
+            mv_ = h.__dict__.setdefault('module_values', {})
+            if e.id in mv_:
+                return mv_[e.id]
+            for mod_ in (h.module.mods if hasattr(h.module, 'mods') else [h.module]):
+                node_ = mod_.const_nodes.get('', {}).get(e.id)
+                if isinstance(node_, ast.Call) and isinstance(node_.func, ast.Name) and not node_.func.id[:1].isupper():
+                    fac_ = None
+                    for m2_ in (h.module.mods if hasattr(h.module, 'mods') else [h.module]):
+                        fac_ = fac_ or m2_.funcs.get(node_.func.id)
+                    if fac_ is not None and any(isinstance(x_, ast.FunctionDef) for x_ in fac_.node.body) and node_.func.id not in h.hooks:
+                        mv_[e.id] = self.ev(node_, {}, None)
+                        return mv_[e.id]
             if e.id in ('tuple', 'str', 'int', 'list', 'dict', 'bytes', 'set', 'frozenset') or (e.id[:1].isupper() and e.id not in env):
                 return ('class', e.id)
             if e.id in ('len', 'repr', 'ord', 'chr', 'bool', 'sorted', 'min', 'max', 'any', 'all', 'enumerate', 'reversed') and e.id not in h.hooks:
@@ -989,6 +1019,10 @@ class Interp:
             v = self.obj_getattr(base, e.attr, cls)
             if isinstance(v, Closure) and isinstance(v.node, ast.FunctionDef) and any(norm(d) == 'property' for d in v.node.decorator_list):
                 return self.call(v, [])
+            if isinstance(v, Closure) and isinstance(v.node, ast.FunctionDef) and isinstance(base, Ref) and any(norm(d) == e.attr + '.setter' for d in v.node.decorator_list):
+                g_ = self.accessor(h.objs[base.name]['__class__'], e.attr, 'get')          # (the setter is the later definition: read through the getter)
+                if g_ is not None:
+                    return self.call(Closure(g_.node, {}, base, g_.cls), [])
             if isinstance(v, tuple) and len(v) == 4 and v[0] == 'property' and isinstance(base, Ref):
                 return self.call_accessor(v[1], v[2], base, [], e)
             return v
@@ -2146,7 +2180,7 @@ class Interp:
                     return self.sym_format_braces(f[1], args, kwargs)
                 return self.sym_method(symstr.lift(f[1]), f[2], args, kwargs, e)
             if f[2] == 'join':
-                return f[1].join(self.seq(args[0]))
+                return f[1].join([x_.spelling if isinstance(x_, Key) else x_ for x_ in self.seq(args[0])])          # (a case-insensitive string is its spelling)
             r = getattr(f[1], f[2])(*args, **kwargs)
             if isinstance(r, list):
                 return h.new_list(r)
@@ -2206,6 +2240,13 @@ class Interp:
                     if kw_.arg == 'fset':
                         parts[1] = kw_.value
                 self.call_accessor(c, parts[1], ref, [value], None)
+                return
+        if isinstance(ref, Ref) and h.objs[ref.name]['__class__'] in h.module.classes and not attr.startswith('__') and h.fld(attr, cls) not in h.objs[ref.name]:
+            # @property / @<name>.setter: the assignment runs the setter (an object of a scenario that keeps the value as a plain
+            # field of that name is stored to directly)
+            st_ = self.accessor(h.objs[ref.name]['__class__'], attr, 'set')
+            if st_ is not None:
+                self.call(Closure(st_.node, {}, ref, st_.cls), [value])
                 return
         if getattr(h, 'intercept_setattr', False) and isinstance(ref, Ref) and h.objs[ref.name]['__class__'] in h.module.classes:
             fn = h.module.method(h.objs[ref.name]['__class__'], '__setattr__')
@@ -2893,8 +2934,10 @@ class Interp:
                     while itv.has_next():
                         yield itv.take()
                 items = pull()
-            elif self.obj_iter_possible(itv) and self.obj_iter(itv) is not None and False:
-                items = []
+            elif self.obj_iter_possible(itv) and not self.h.is_list(itv):
+                # an object of the module that is (or hands out) an iterator: one item per round -- what the body takes from the same
+                # iterator in between is gone for the loop
+                items = self.walk(itv)
             elif self.h.is_list(itv):
                 # a list is iterated by position over its *current* content (Python's list iterator): a body that removes or
                 # inserts elements while iterating skips or repeats elements exactly as it would at run time
